@@ -136,6 +136,17 @@ def _held_case(i, rng, tier):
     garbage collector of any thread may do) in the middle of the closing
     handshake of the current one.  Scenario and oracle are C08's."""
     from . import C08
+    if rng.random() < 0.25:
+        # a third single-threaded writer of Close frames: the library fails
+        # the connection for a protocol violation after the application's
+        # close() is on the wire (scenario and wire oracle of C04)
+        from . import C04
+        for _ in range(400):
+            c = C04.make_case('seeded', rng.randrange(100000), rng, tier)
+            if c is not None and not c.get('stop_after'):
+                break
+        c['app_close'] = True
+        return {'name': 'violation_after_close', 'held': c, 'via': 'C04'}
     if rng.random() < 0.4:
         # the other single-threaded history with two writers of the closing
         # flag: close() between Connected and Ready, then the handshake reply
@@ -161,6 +172,15 @@ def _held_case(i, rng, tier):
 
 def _execute_held(case):
     from . import C08
+    if case.get('via') == 'C04':
+        from . import C04
+        r = C04.execute(case['held'])
+        r.stats['probe:' + case['name']] += 1
+        r.violations = [('C12/%s/' % case['name'] + k.split('/', 1)[1], m)
+                        for k, m in r.violations
+                        if k.split('/')[-1] in ('wire_after_violation',
+                                                'frame_after_close')]
+        return r
     r = C08.execute(case['held'])
     r.stats['probe:' + case['name']] += 1
     r.violations = [('C12/%s/' % case['name'] + k.split('/', 1)[1], m)
